@@ -412,11 +412,16 @@ func checkC18(P *Prog, r *Result) {
 	r.floor("C18/strconv-err", 2)
 	// the numeric coercers apply the documented parse to each input type (base-10 Atoi / ParseFloat 64 ...): a
 	// different parse (base 0 reads "010" as 8) silently changes a number (C03's coercion table, numeric rows)
+	// (the table is frozen from the formulas of the default platform; the GOARCH=386 repetition of this check
+	// in the thorough tier covers the conversions, whose widths differ there, not the parse)
+	r.Extra["numeric_coercers"] = len(coercers)
+	r.Extra["conversions_classified"] = nConv
+	if P.GOARCH != "" {
+		return
+	}
 	shareRule(P, r, checkC03, "C03/coercion-table", func(o Obligation) bool {
 		return strings.Contains(o.Construct, ".Int") || strings.Contains(o.Construct, ".Float") || strings.Contains(o.Construct, "zog.Int") || strings.Contains(o.Construct, "zog.Float")
 	}, "C18/numeric-parse-table", 2)
-	r.Extra["numeric_coercers"] = len(coercers)
-	r.Extra["conversions_classified"] = nConv
 }
 
 // termTypes: the types a value of type t can have: t itself, or — for a type parameter — the terms of
